@@ -184,7 +184,10 @@ class Run:
             if hold or self.trace['world'].get('hold_refs', True):
                 self.tracked.append((label, (lambda m: (lambda: m))(mv), ops.snapshot(mv)))
             else:
-                self._current.append(mv)                 # strong until the end-of-operation check
+                cur = getattr(self.world._tls, 'current', None)
+                if cur is None:
+                    cur = self.world._tls.current = []
+                cur.append(mv)                           # strong until this thread's end-of-operation check
                 self.tracked.append((label, weakref.ref(mv), ops.snapshot(mv)))
 
     def check_tracked(self, where):
@@ -207,7 +210,7 @@ class Run:
                                             expected=repr(snap)[:300], got=repr(now)[:300]))
         # report each mutated object once
         self.tracked = [(l, r, s) for (l, r, s) in alive if bad is None or r() is not bad]
-        self._current = []
+        self.world._tls.current = []
 
     def exec_op(self, op, label, keep=None):
         """Build operands, snapshot them, apply the operation.  Returns (outcome, exception)."""
